@@ -669,3 +669,54 @@ package device
 //@   siteassert mapdelete(map[byte]bool) [C17] len(ev) >= 3 && (ev[0] & 0xF0 == 0x80 || (ev[0] & 0xF0 == 0x90 && ev[2] == 0)) && k == ev[1] && m == d.externalNoteTracker[ev[0] & 0x0F]
 //@   loop 1 invariant [C17] d != nil && extOK(d)
 //@   safety [C17]
+// reader side: the tracker (the field and the per-channel maps held in it) is only read under its mutex - Panic replaces it
+//@   guardedreads [C16]
+//@   ghost entry concurrent = true
+
+// ---- the LED loop (C16 reader side, C17). It is the only other user of eventProcessMutex and only READS what that mutex
+// guards (proved: `guardedreads` makes every read an obligation, a declared reader's writes are obligations that fail), so
+// the writer thread keeps its knowledge across Lock; the LED loop itself knows, after Lock, only the monitor invariant.
+//@ ghost var ledFrames int
+//@ ghost var ledLastRed bool
+//@ lockreaders Device.eventProcessMutex: (*Device).handleOpenrgb
+//@ lockinv Device.eventProcessMutex [C16,C17] self: self.mapping >= 0 && self.mapping < len(self.config.KeyMappings) && self.channel < 16
+
+//@ pred ledLk0(d *Device, l0 set[Ref]) := !locked[d.eventProcessMutex] && !locked[d.externalTrackerMutex] && concurrent && locked == l0 && wgDone == 0
+//@ pred ledLk1(d *Device, l0 set[Ref]) := locked[d.eventProcessMutex] && !locked[d.externalTrackerMutex] && concurrent && locked == upd(l0, d.eventProcessMutex, true) && wgDone == 0
+//@ pred ledLk2(d *Device, l0 set[Ref]) := locked[d.eventProcessMutex] && locked[d.externalTrackerMutex] && concurrent && locked == upd(upd(l0, d.eventProcessMutex, true), d.externalTrackerMutex, true) && wgDone == 0
+//@ func (*Device).handleOpenrgb
+//@   requires d != nil && ctx != nil && wg != nil
+//@   requires d.eventProcessMutex != nil && d.externalTrackerMutex != nil && d.eventProcessMutex != d.externalTrackerMutex
+//@   requires [C16] !locked[d.eventProcessMutex] && !locked[d.externalTrackerMutex]
+//@   ghost entry wgDone = 0
+//@   ghost entry concurrent = true
+//@   ensures [C16] wgDone == 1
+//@   ensures [C16] locked == old(locked)
+//@   guardedreads [C16]
+// C17 "on disconnect all LEDs turn red": if any frame was ever sent, the last one sent before the goroutine ends is all red
+//@   ghost entry ledFrames = 0
+//@   ensures [C17] ledFrames > 0 ==> ledLastRed
+//@   loop 23 invariant [C17] forallp j int :: 0 <= j && j < idx() ==> ledArray[j].Red == 255 && ledArray[j].Green == 0 && ledArray[j].Blue == 0
+//@   loop 1 invariant [C16] ledLk0(d, old(locked))
+//@   loop 2 invariant [C16] ledLk0(d, old(locked))
+//@   loop 3 invariant [C16] ledLk0(d, old(locked))
+//@   loop 4 invariant [C16] ledLk0(d, old(locked))
+//@   loop 5 invariant [C16] ledLk0(d, old(locked))
+//@   loop 6 invariant [C16] ledLk0(d, old(locked))
+//@   loop 7 invariant [C16] ledLk0(d, old(locked))
+//@   loop 8 invariant [C16] ledLk0(d, old(locked))
+//@   loop 9 invariant [C16] ledLk0(d, old(locked))
+//@   loop 10 invariant [C16] ledLk0(d, old(locked))
+//@   loop 11 invariant [C16] ledLk0(d, old(locked))
+//@   loop 12 invariant [C16] ledLk0(d, old(locked))
+//@   loop 13 invariant [C16] ledLk1(d, old(locked))
+//@   loop 14 invariant [C16] ledLk1(d, old(locked))
+//@   loop 15 invariant [C16] ledLk1(d, old(locked))
+//@   loop 16 invariant [C16] ledLk2(d, old(locked))
+//@   loop 17 invariant [C16] ledLk2(d, old(locked))
+//@   loop 18 invariant [C16] ledLk2(d, old(locked))
+//@   loop 19 invariant [C16] ledLk2(d, old(locked))
+//@   loop 20 invariant [C16] ledLk2(d, old(locked))
+//@   loop 21 invariant [C16] ledLk1(d, old(locked))
+//@   loop 22 invariant [C16] ledLk1(d, old(locked))
+//@   loop 23 invariant [C16] ledLk0(d, old(locked))
